@@ -26,7 +26,7 @@ ASSUMPTIONS = [
     "functools.partial carriers bind the first positional parameter; ignore lists cannot apply to them (documented)",
     "ignored parameters do not influence the function's value (that is what ignoring means)",
 ]
-SHARDS = {"quick": 8, "thorough": 16}
+SHARDS = {"quick": 16, "thorough": 16}
 
 _server = []
 
@@ -129,4 +129,4 @@ def run_case(spec):
 
 
 def shard(ctx):
-    ctx.hyp_run(strategy(), max_examples=ctx.pick(120, 2000))
+    ctx.hyp_run(strategy(), max_examples=ctx.pick(150, 2000))
